@@ -161,7 +161,9 @@ class ParseMCNPCell:
         ast_mcnp = get_ast(geometry)
 
         option = re.sub(' *: *', ':', option)
-        option = (option.lower().replace('(', ' ').replace(')', ' ')
+        # parentheses delimit the arguments of a transformation: keep them as
+        # separate tokens
+        option = (option.lower().replace('(', ' ( ').replace(')', ' ) ')
                   .replace('=', ' '))
         kw_list = list(reversed(option.split()))
         kws = self.parse_keywords(kw_list)
@@ -278,11 +280,15 @@ class ParseMCNPCell:
                        'after FILL keyword')
                 raise ParseMCNPCellError(msg) from None
             del kw_list[-consumed:]  # remove the last `consumed` elements
+            if kw_list and kw_list[-1][0] in '0123456789.+-':
+                msg = (f'expected {bounds.size()} universe specifications '
+                       'after FILL keyword, found more')
+                raise ParseMCNPCellError(msg)
             fillid_bounds = bounds
         else:
             fillid_u = int(float(first_arg))
-        while kw_list and kw_list[-1][0] in '0123456789.+-':
-            fill_params.append(float(kw_list.pop()))
+        fill_params = [float(param)
+                       for param in self.pop_transform_args(kw_list)]
         # now handle the case where the number of the
         # transformation was given instead of the transformation
         # parameters
@@ -310,6 +316,22 @@ class ParseMCNPCell:
         return fillid_bounds, fillid_u, tuple(fill_params)
 
     @staticmethod
+    def pop_transform_args(kw_list):
+        '''Pop the arguments of a transformation from the keyword list: the
+        tokens between parentheses, or any leading numbers.'''
+        params = []
+        if kw_list and kw_list[-1] == '(':
+            kw_list.pop()
+            while kw_list and kw_list[-1] != ')':
+                params.append(kw_list.pop())
+            if kw_list:
+                kw_list.pop()
+        else:
+            while kw_list and kw_list[-1][0] in '0123456789.+-':
+                params.append(kw_list.pop())
+        return params
+
+    @staticmethod
     def parse_lat_kw(kw_list):
         '''Parse the argument of the LAT keyword.'''
         lat_opt = kw_list.pop()
@@ -326,9 +348,7 @@ class ParseMCNPCell:
 
     def parse_trcl_kw(self, elt, kw_list):
         '''Parse the arguments of the TRCL and *TRCL keywords.'''
-        trcl_params = []
-        while kw_list and kw_list[-1][0] in '0123456789.+-':
-            trcl_params.append(kw_list.pop())
+        trcl_params = self.pop_transform_args(kw_list)
         # now handle the case where the number of the
         # transformation was given instead of the transformation
         # parameters
